@@ -361,6 +361,26 @@ static void worker(int tid, std::vector<Rec>* recs, std::vector<NvRec>* nvs, Tok
                     held.push_back({g.first, g.second, vh::fnv(g.first, g.second)});
                 }
             }
+        } else if (op == "create" || op == "delete" || op == "find") {
+            // storage directory operations (names in hex)
+            std::string n;
+            vh::unhex(w[1], n);
+            if (op == "create") o << st(create_storage(n));
+            else if (op == "delete") o << st(delete_storage(n));
+            else o << st(find_storage(n));
+        } else if (op == "putin" || op == "getin") {
+            // data operations addressed to another storage: putin <name> <key> <val> / getin <name> <key>
+            std::string n, k, v;
+            vh::unhex(w[1], n); vh::unhex(w[2], k);
+            if (op == "putin") {
+                vh::unhex(w[3], v);
+                o << st(put<char>(tok, n, k, v.data(), v.size()));
+            } else {
+                std::pair<char*, std::size_t> g{};
+                auto rc = get<char>(n, k, g);
+                o << st(rc);
+                if (rc == status::OK && g.first != nullptr) o << " " << hex(std::string_view(g.first, g.second));
+            }
         } else if (op == "puti") {
             // an inline (pointer-sized) value: stored by value in the slot
             std::string k;
